@@ -429,6 +429,23 @@ def wfObj : Obj → Bool
   | (_, v) :: r => v.wf && wfObj r
 end
 
+mutual
+/-- some node of the value has type `none_` (a default-constructed json, or the placeholder left
+    by a non-const operator[]); a number whose primitive has no type counts as well -/
+def hasNone : Json → Bool
+  | .none => true
+  | .num p => p.ty = .none
+  | .arr xs => hasNoneL xs
+  | .obj kvs => hasNoneO kvs
+  | _ => false
+def hasNoneL : List Json → Bool
+  | [] => false
+  | x :: xs => hasNone x || hasNoneL xs
+def hasNoneO : Obj → Bool
+  | [] => false
+  | (_, v) :: r => hasNone v || hasNoneO r
+end
+
 /-! ## dump -/
 
 /-- the escape switch of json::dumpToString -/
